@@ -260,6 +260,20 @@ fn alphabet() -> Vec<Stmt> {
             inner: &[],
             model: |m| if m.vars.contains_key("b") { Exp::Fail } else { Exp::Ok(None) },
         },
+        // anonymous, parameterless, capture-free functions whose body is an assignment: the
+        // binding lives in the call, never at top level
+        Stmt {
+            src: "(() => (b = 5))()",
+            targets: &[],
+            inner: &[],
+            model: |m| if m.vars.contains_key("b") { Exp::Fail } else { Exp::Ok(Some(MV::Int(5))) },
+        },
+        Stmt {
+            src: "[() => (a = 1)][0]() + (() => (b = 2) * b)()",
+            targets: &[],
+            inner: &[],
+            model: |m| if m.vars.contains_key("a") || m.vars.contains_key("b") { Exp::Fail } else { Exp::Ok(Some(MV::Int(5))) },
+        },
         Stmt { src: "a = nope", targets: &["a"], inner: &[], model: |_m| Exp::Fail },
         Stmt {
             src: "b = (a = 1) + nope",
@@ -548,7 +562,7 @@ pub fn run(ctx: &Ctx, replay: Option<&J>) -> i32 {
     ctx.set("fixpoint_reached", json!(ctx.caps.lock().unwrap().is_empty()));
     ctx.set(
         "trusted_base",
-        json!(["reference model of the 39-statement alphabet in mc/src/c03.rs", "canonical state key (sorted bindings + outputs)"]),
+        json!(["reference model of the 41-statement alphabet in mc/src/c03.rs", "canonical state key (sorted bindings + outputs)"]),
     );
     ctx.assume("names and values outside the statement alphabet are not explored");
     // vacuity guards
